@@ -17,14 +17,15 @@ HARNESS = [vf.kit("internal/util/javascript", "javascript"),
 RUNJS = os.path.join(vf.VERIF, "harness", "jsscopes", "run.js")
 JVM = {"JAVA_TOOL_OPTIONS": "-XX:ParallelGCThreads=2 -Xmx3g -Xss64m"}
 ALLREF = '{"plain","tmpl","ntmpl","short","set","dot","optdot","key","method","getter","cls","regex","str"}'
+NSIM_Q, NSIM_T = 200, 2500
 NAMES = {"NamesA": ["a"], "NamesAB": ["a", "b"], "NamesABC": ["a", "b", "c"]}
 
 
-def _cfg(names, declf, dstrf, reff, fnf, defaults, noparam, others, maxitems, maxdepth, impl, invariants):
-    return ("SPECIFICATION Spec\nCONSTANTS\n  Names <- %s\n  DeclF = %s\n  DstrF = %s\n  RefF = %s\n  FnF = %s\n"
+def _cfg(names, declf, dstrf, reff, topreff, fnf, defaults, noparam, others, maxitems, maxdepth, impl, invariants):
+    return ("SPECIFICATION Spec\nCONSTANTS\n  Names <- %s\n  DeclF = %s\n  DstrF = %s\n  RefF = %s\n  TopRefF = %s\n  FnF = %s\n"
             "  Defaults = %s\n  NoParam = %s\n  Others = %s\n  MaxItems = %d\n  MaxDepth = %d\n  Impl = \"%s\"\n"
             "INVARIANTS %s\nCHECK_DEADLOCK FALSE\n"
-            % (names, declf, dstrf, reff, fnf, "TRUE" if defaults else "FALSE", "TRUE" if noparam else "FALSE", others,
+            % (names, declf, dstrf, reff, topreff, fnf, "TRUE" if defaults else "FALSE", "TRUE" if noparam else "FALSE", others,
                maxitems, maxdepth, impl, invariants))
 
 
@@ -106,7 +107,7 @@ def _judge(chk, sd, recs, label, shards, timeout):
     """JsScopes_Trace over recs in `shards` parallel TLC runs, the self-test pairs appended to every shard.
     Returns ({record index: [keys]}, feature counts)."""
     st = _selftest()
-    selfrecs = [{"p": p, "short": s, "out": o, "same": True} for p, s, o, _w in st]
+    selfrecs = [{"p": p, "short": s, "out": o, "same": True, "self": True} for p, s, o, _w in st]
     shards = max(1, min(shards, (len(recs) + 299) // 300))
     idx = [list(range(k, len(recs), shards)) for k in range(shards)]
     paths = [vf.write_ndjson(os.path.join(sd, "io-%s-%d.ndjson" % (label, k)), [recs[i] for i in ix] + selfrecs)
@@ -129,8 +130,6 @@ def _judge(chk, sd, recs, label, shards, timeout):
         for b in bl:
             if b["idx"] <= len(ix):
                 bad.setdefault(ix[b["idx"] - 1], []).append(b["key"])
-    for f in list(feats):       # the self-test programs are not inputs
-        pass
     return bad, feats
 
 
@@ -307,23 +306,25 @@ def run():
         if os.environ.get("VERIF_REPLAY"):
             return _replay(chk, sd, os.environ["VERIF_REPLAY"])
         inv = "ModelKeeps Emit"
+        top = '{"plain","set","short","tmpl"}'
         jobs = {
             # exhaustive: two names, declarations / plain references / functions / blocks (nesting, shadowing, hoisting, collisions)
-            "core": ("NamesAB", _cfg("NamesAB", '{"var","let"}', "{}", '{"plain"}', '{"decl","iife"}', False, False, '{"blk"}',
+            "core": ("NamesAB", _cfg("NamesAB", '{"var","let"}', "{}", '{"plain"}', '{"plain"}', '{"decl","iife"}', False, False, '{"blk"}',
                                      5 if thorough else 4, 3 if thorough else 2, "careful", inv), {}),
-            # exhaustive: one function with a parameter and every way of mentioning a name
-            "forms": ("NamesAB", _cfg("NamesAB", '{"const"}', '{"obj","objdef","objkey","arr"}', ALLREF, '{"iife","arrow"}', thorough, False,
-                                      '{"catch","for"}' if thorough else "{}", 3, 2, "careful", inv), {}),
+            # exhaustive: a function with a parameter, every way of mentioning a name inside it, evaluated mentions outside it
+            "forms": ("NamesAB", (_cfg("NamesAB", '{"const"}', '{"obj","objdef","objkey","arr"}', ALLREF, top, '{"decl","iife","arrow"}', True, False,
+                                       '{"catch","for"}', 4, 1, "careful", inv) if thorough else
+                                  _cfg("NamesAB", "{}", "{}", ALLREF, '{"plain","set"}', '{"iife"}', False, False, "{}", 4, 1, "careful", inv)), {}),
             # long random programs over everything
-            "sim": ("NamesABC", _cfg("NamesABC", '{"var","let","const"}', '{"obj","objdef","objkey","arr"}', ALLREF, '{"decl","iife","arrow"}',
+            "sim": ("NamesABC", _cfg("NamesABC", '{"var","let","const"}', '{"obj","objdef","objkey","arr"}', ALLREF, ALLREF, '{"decl","iife","arrow"}',
                                      True, True, '{"blk","catch","for"}', 14, 3, "careful", inv),
-                    dict(simulate="num=%d" % (1500 if thorough else 60), depth=15, seed=vf.SEED, workers=1)),
+                    dict(simulate="num=%d" % (NSIM_T if thorough else NSIM_Q), depth=15, seed=vf.SEED, workers=1)),
             # the ideal (binding-based) renamer satisfies the contract: the contract does not ask for the impossible
-            "scoped": ("NamesAB", _cfg("NamesAB", '{"var","let"}', '{"obj","objdef"}', '{"plain","tmpl","short","method"}', '{"decl","iife"}', True, False,
-                                       '{"blk"}', 3, 2, "scoped", "ModelKeeps"), {}),
+            "scoped": ("NamesAB", _cfg("NamesAB", '{"var","let"}', '{"obj","objdef"}', '{"plain","tmpl","short","method"}', '{"plain","tmpl"}',
+                                       '{"decl","iife"}', True, False, '{"blk"}', 3, 2, "scoped", "ModelKeeps"), {}),
             # negative control: the renamer as found (rename map keyed by name) breaks four clauses
-            "asis": ("NamesAB", _cfg("NamesAB", '{"var"}', "{}", '{"plain","tmpl","method"}', '{"iife"}', False, False, '{"blk"}', 3, 1, "asis",
-                                     "NoGlobalRenamed NoStaleReference NoPropertyRenamed NoFileScopeRenamed"), dict(extra=["-continue"])),
+            "asis": ("NamesAB", _cfg("NamesAB", '{"var"}', "{}", '{"plain","tmpl","method"}', '{"plain"}', '{"iife"}', False, False, '{"blk"}', 3, 1,
+                                     "asis", "NoGlobalRenamed NoStaleReference NoPropertyRenamed NoFileScopeRenamed"), dict(extra=["-continue"])),
         }
 
         def one(item):
@@ -338,7 +339,7 @@ def run():
             res = dict(ex.map(one, jobs.items()))
 
         what = {"core": "MC: every program over {a,b} x var/let/plain reference/function/block up to %d items" % (5 if thorough else 4),
-                "forms": "MC: every program of up to 3 items over {a,b} x every reference form / destructuring / function",
+                "forms": "MC: every program of up to 4 items over {a,b}: a function (thorough: + arrow, declaration, defaults, catch, for-of, destructuring) x every reference form inside x evaluated references outside",
                 "scoped": "MC: the binding-based renamer satisfies the contract"}
         for nm, w in what.items():
             vf.tlc_ok(res[nm], w)
@@ -410,7 +411,7 @@ def run():
                            "Minify with and without shortenNames; the harness tokenizer projects the output to tokens; JsScopes_Trace judges every "
                            "pair; the shipped dashboard scripts go through both modes and JsTokens_Trace judges token integrity; "
                            "distinct_nontrivial = records whose program has local bindings (counted by the contract)"
-                           % (1500 if thorough else 60))
+                           % (NSIM_T if thorough else NSIM_Q))
         mid = len(progs) // 2
         chk.sample({"kind": "generated", "in": _show(progs[mid]["text"]), "plain": _show(gen[2 * mid]["text"]), "short": _show(gen[2 * mid + 1]["text"]),
                     "expect": progs[mid]["exp"]})
